@@ -1,13 +1,21 @@
 import Grol.Registers
+import GrolProofs.RegRewrite
+import Grol.Generated.RegFacts
 /-
 C05 — integer registers are unobservable.
 
-What is proved here is the allocation discipline only: with the post-fix protocol (allocate
-when a register is free, otherwise fall back; release on every exit) no sequence or nesting of
-counted loops can exhaust the register file or release out of order.  The equivalence of the
-two evaluator configurations themselves (registers on / off) is NOT proved: the evaluator model
-(`Grol.E`) is the register-free configuration, and the register configuration of the real code
-is compared with it on every generated program by the `eval` correspondence suite.
+Part 1 (`Grol.Reg`): the allocation discipline: with the post-fix protocol (allocate when a register
+is free, otherwise fall back; release on every exit) no sequence or nesting of counted loops can
+exhaust the register file or release out of order.
+
+Part 2 (`Grol.RegRewrite`): the optimisation itself.  `modifyR` is the model of
+`ast.Modify(body, ModifyRegister(register))`, tied to the code by the `regrewrite` suite.
+`rewrite_shape`: a successful rewrite replaced exactly the identifier nodes of the name, nothing else;
+`rewrite_refuses`: it gives up exactly on the listed syntactic conditions; `useRegister_spec`: the whole
+decision of `evalForInteger` / `extendFunctionEnv`.
+
+Part 3 (`GrolProofs/RegSim.lean`): the simulation between the two configurations — see there for what
+is proved and what is only stated.
 -/
 namespace Grol.Reg
 
@@ -62,3 +70,110 @@ example : ∃ f', (List.replicate 9 (0 : Int)).foldr (fun v inner => fun f => Fi
   C05.nested_loops_balanced (fun f => .ok f) (fun f _ => ⟨f, rfl, rfl⟩) _ {} (by decide)
 
 end Grol.Reg
+
+namespace Grol.RegRewrite
+open Grol.E
+
+/-- (a) shape of a successful rewrite, for a body that may already hold registers of enclosing
+rewrites: erasing the registers gives the same tree as before; the result is the body with every
+identifier node of the name replaced and nothing else changed (`substAll`); no identifier node of
+the name is left; the new register occurs once per replaced identifier -/
+theorem C05.rewrite_shape_nested (name : String) (idx : Nat) (b b' : RNode) (h : modifyR name idx b = some b') :
+    erase b' = erase b ∧ b' = substAll name idx b ∧ countIdent name b' = 0 ∧
+      countReg name idx b' = countIdent name b + countReg name idx b := by
+  rw [modifyR_spec] at h
+  by_cases hr : refuses name idx b = true
+  · simp [hr] at h
+  · have hr' : refuses name idx b = false := by simpa using hr
+    rw [hr'] at h
+    simp only [Bool.false_eq_true, if_false, Option.some.injEq] at h
+    subst h
+    exact ⟨erase_substAll name idx b, rfl, countIdent_substAll name idx b, countReg_substAll name idx b⟩
+
+/-- (a) for a parsed body: `erase b' = b` and every identifier occurrence of the name is a register -/
+theorem C05.rewrite_shape (name : String) (idx : Nat) (b : Node) (b' : RNode) (h : modifyRegister name idx b = some b') :
+    erase b' = b ∧ b' = substAll name idx (embed b) ∧ countIdent name b' = 0 ∧
+      countReg name idx b' = countIdent name (embed b) := by
+  obtain ⟨h1, h2, h3, h4⟩ := C05.rewrite_shape_nested name idx (embed b) b' h
+  refine ⟨by rw [h1, erase_embed], h2, h3, ?_⟩
+  rw [h4, countReg_embed]; omega
+
+/-- (b) the rewrite gives up exactly when the body `refuses` the register: it contains a function literal,
+`x++`/`x--`, `x = …`/`x := …` (also as the variable of an inner loop), `++x`/`--x`, `m.x`, `del(x)`, or a
+macro literal with the parameter `x` (`refuses` is this list, as a recursive predicate on the tree) -/
+theorem C05.rewrite_refuses (name : String) (idx : Nat) (b : RNode) :
+    modifyR name idx b = none ↔ refuses name idx b = true := by
+  rw [modifyR_spec]
+  by_cases hr : refuses name idx b = true <;> simp [hr]
+
+/-- the decision of `evalForInteger` / `extendFunctionEnv` for one variable never panics, and the
+variable lives in a register iff: integer value, non-empty name, registers enabled, a register free,
+not a constant name, and the body does not refuse.  The file grows by exactly that register. -/
+theorem C05.useRegister_spec (noReg : Bool) (f : Reg.File) (name : String) (isInt : Bool) (v : Int) (body : RNode) :
+    ∃ d, useRegister noReg f name isInt v body = .ok d ∧
+      (d.kept = true ↔ (isInt = true ∧ name ≠ "" ∧ noReg = false ∧ f.numReg < Reg.numRegisters ∧
+                        isConstant name = false ∧ refuses name f.numReg body = false)) ∧
+      (d.kept = true → d.file.numReg = f.numReg + 1 ∧ d.idx = some f.numReg ∧
+          d.body = if countIdent name body = 0 then body else substAll name f.numReg body) ∧
+      (d.kept = false → d.file.numReg = f.numReg ∧ d.body = body) := by
+  unfold useRegister
+  by_cases he : (isInt && registerEligible noReg f name) = true
+  · have he' := he
+    simp only [registerEligible, Bool.and_eq_true, Bool.not_eq_true', bne_iff_ne, ne_eq, Reg.File.hasRegisters,
+      decide_eq_true_eq] at he'
+    obtain ⟨hi, ⟨⟨hn, hr⟩, hh⟩, hc⟩ := he'
+    have hh' : f.hasRegisters = true := by simpa [Reg.File.hasRegisters] using hh
+    simp only [he, Bool.not_true, Bool.false_eq_true, if_false, Reg.File.make, hh']
+    rw [modifyR_spec]
+    by_cases hrf : refuses name f.numReg body = true
+    · simp only [hrf, if_true, Reg.File.release]
+      simp [hrf]
+    · simp only [hrf, if_false]
+      simp [hi, hn, hr, hh, hc, hrf]
+  · simp only [he, Bool.not_false, if_true]
+    refine ⟨_, rfl, ?_, by simp, by simp⟩
+    simp only [Bool.false_eq_true, false_iff]
+    intro ⟨hi, hn, hr, hh, hc, _⟩
+    apply he
+    simp [registerEligible, hi, hn, hr, hc, Reg.File.hasRegisters, hh]
+
+/-- non-vacuity: `for i = 3 { s = s + i * i }` rewrites both occurrences of `i` -/
+example : modifyRegister "i" 0 (.stmts [.inf "ASSIGN" (.ident "s") (.inf "PLUS" (.ident "s") (.inf "ASTERISK" (.ident "i") (.ident "i")))]) =
+    some (.stmts [.inf "ASSIGN" (.ident "s") (.inf "PLUS" (.ident "s") (.inf "ASTERISK" (.reg "i" 0) (.reg "i" 0)))]) := by rfl
+
+/-- non-vacuity: `i = 1`, `i++`, `m.i`, `del(i)`, a function literal are refused -/
+example : modifyRegister "i" 0 (.stmts [.post "INCR" "i"]) = none ∧
+    modifyRegister "i" 0 (.stmts [.inf "ASSIGN" (.ident "i") (.int 1)]) = none ∧
+    modifyRegister "i" 0 (.idx "DOT" (.ident "m") (.ident "i")) = none ∧
+    modifyRegister "i" 0 (.builtin "DEL" [.ident "i"]) = none ∧
+    modifyRegister "i" 0 (.fn none [] false true "" (.stmts [])) = none := ⟨rfl, rfl, rfl, rfl, rfl⟩
+
+end Grol.RegRewrite
+
+/-! ### the eligibility tests of the Go source, pinned (regenerated from eval/eval.go on every run)
+
+The parameter site (`extendFunctionEnv`) is driven for real by the `regrewrite` suite.  The loop site
+(`evalForInteger`) cannot be observed without running the loop: its test is pinned here as source text, and
+`Grol.RegRewrite.registerEligible noReg f name = (name != "" && !noReg && f.hasRegisters && !isConstant name)`
+is that text with `s.NoReg` ↦ `noReg`, `s.env.HasRegisters()` ↦ `f.hasRegisters`, `object.Constant` ↦ `isConstant`.
+The parameter test is the same conjunction without `name != ""` (the empty name is a constant name:
+`isConstant "" = true`), with the integer test (`isInt` in `useRegister`) and `!ownName` (the parameter is not
+named like the function itself; the hook's function has no name). A change of either expression fails here. -/
+namespace Grol.Generated.RegFacts
+
+theorem C05.loop_eligibility_pinned :
+    loopEligibility = ["name != \"\" && !s.NoReg && s.env.HasRegisters() && !object.Constant(name)"] := by decide
+
+theorem C05.param_eligibility_pinned :
+    paramEligibility = ["!s.NoReg && pval.Type() == object.INTEGER && env.HasRegisters() && !object.Constant(param.Value().Literal()) && !ownName"] ∧
+    paramOwnName = ["fn.Name != nil && fn.Name.Literal() == param.Value().Literal()"] := by decide
+
+end Grol.Generated.RegFacts
+
+namespace Grol.RegRewrite
+/-- the model's test, literally the pinned conjunction; and the empty name is never eligible at the parameter
+site either, where `name != ""` is not tested -/
+theorem C05.registerEligible_is_the_pinned_test (noReg : Bool) (f : Reg.File) (name : String) :
+    registerEligible noReg f name = (name != "" && !noReg && f.hasRegisters && !Grol.E.isConstant name) ∧
+    Grol.E.isConstant "" = true := ⟨rfl, by decide⟩
+end Grol.RegRewrite
